@@ -392,7 +392,18 @@ static int v_give_blob(void **out_data, size_t *out_size, const uint8_t *src, si
 }
 
 int lltd_port_get_icon_image(void **out_data, size_t *out_size) {
+#if defined(V_ICON_BIG) && !defined(V_REPLAY)
+    /* big-icon instance: an icon of any size up to 65535 bytes whose CONTENTS are not modelled (arbitrary, never compared);
+     * what is decided there is the caching / ownership logic and the arguments handed to sendLargeTlvResponse */
+    if (!out_data || !out_size) return -1;
+    size_t n = g_cfg.icon_big;
+    void *p = (g_cfg.icon_fail || n == 0) ? NULL : lltd_port_malloc(n);
+    if (!p) { *out_data = NULL; *out_size = 0; return -1; }
+    *out_data = p; *out_size = n;
+    return 0;
+#else
     return v_give_blob(out_data, out_size, g_cfg.icon, g_cfg.icon_size, g_cfg.icon_fail);
+#endif
 }
 
 int lltd_port_get_friendly_name(void **out_data, size_t *out_size) {
